@@ -16,6 +16,7 @@ import Hpbf.Driver3
 import Hpbf.Driver4
 import Hpbf.Driver5
 import Hpbf.Driver6
+import Hpbf.Driver7
 import Hpbf.Driver8
 
 open Hpbf
